@@ -137,6 +137,55 @@ class CallGraph:
                 out.setdefault(n.targets[0].id, set()).add(n.value.func.id)
         return out
 
+    def _classes_of_expr(self, g, e, depth):
+        """Class names an expression of function g can evaluate to: a class name, a conditional between such, a look-up in a
+        module-level table whose values are class names (`TABLE[x]`, `TABLE.get(x[, default])`), a local assigned from those."""
+        prog = self.prog
+        if depth > 3 or e is None:
+            return set()
+        if isinstance(e, ast.Name):
+            if e.id in prog.classes:
+                return {e.id}
+            out = set()
+            for n in walk_no_nested_defs(g.node):
+                if isinstance(n, ast.Assign) and any(isinstance(t, ast.Name) and t.id == e.id for t in n.targets):
+                    out |= self._classes_of_expr(g, n.value, depth + 1)
+                # `for key, cls in TABLE:` over a module-level table of (key, class) pairs
+                if isinstance(n, (ast.For, ast.comprehension)) and isinstance(n.iter, ast.Name) and n.iter.id in g.mod.consts:
+                    t = g.mod.consts[n.iter.id]
+                    rows = t.elts if isinstance(t, (ast.Tuple, ast.List)) else (list(t.values) if isinstance(t, ast.Dict) else [])
+                    tg = n.target
+                    if isinstance(tg, ast.Name) and tg.id == e.id:
+                        out |= {r.id for r in rows if isinstance(r, ast.Name) and r.id in prog.classes}
+                    elif isinstance(tg, (ast.Tuple, ast.List)):
+                        for i, x in enumerate(tg.elts):
+                            if isinstance(x, ast.Name) and x.id == e.id:
+                                for r in rows:
+                                    if isinstance(r, (ast.Tuple, ast.List)) and i < len(r.elts) and isinstance(r.elts[i], ast.Name) and r.elts[i].id in prog.classes:
+                                        out.add(r.elts[i].id)
+            return out
+        if isinstance(e, ast.IfExp):
+            return self._classes_of_expr(g, e.body, depth + 1) | self._classes_of_expr(g, e.orelse, depth + 1)
+        table = None
+        extra = set()
+        if isinstance(e, ast.Subscript) and isinstance(e.value, ast.Name):
+            table = e.value.id
+        elif isinstance(e, ast.Call) and isinstance(e.func, ast.Attribute) and e.func.attr == "get" and isinstance(e.func.value, ast.Name):
+            table = e.func.value.id
+            if len(e.args) > 1:
+                extra = self._classes_of_expr(g, e.args[1], depth + 1)
+        if table is not None and table in g.mod.consts:
+            t = g.mod.consts[table]
+            vals = t.values if isinstance(t, ast.Dict) else (t.elts if isinstance(t, (ast.Tuple, ast.List)) else [])
+            out = set(extra)
+            for v in vals:
+                if isinstance(v, ast.Name) and v.id in prog.classes:
+                    out.add(v.id)
+                elif isinstance(v, (ast.Tuple, ast.List)):
+                    out |= {x.id for x in v.elts if isinstance(x, ast.Name) and x.id in prog.classes}
+            return out
+        return set()
+
     def resolve(self, call, f, ctor_types=None):
         """Callee Funcs of a Call node inside Func f (possibly empty = not a repository function)."""
         prog = self.prog
@@ -155,10 +204,11 @@ class CallGraph:
                         and isinstance(n.value, ast.Call) and n.value is not call:
                     for g in self.resolve(n.value, f, ctor_types):
                         for r in ast.walk(g.node):
-                            if isinstance(r, ast.Return) and isinstance(r.value, ast.Name) and r.value.id in prog.classes:
-                                init = prog.resolve_method(r.value.id, "__init__")
-                                if init and init not in out:
-                                    out.append(init)
+                            if isinstance(r, ast.Return) and r.value is not None:
+                                for cname in self._classes_of_expr(g, r.value, 0):
+                                    init = prog.resolve_method(cname, "__init__")
+                                    if init and init not in out:
+                                        out.append(init)
             if out:
                 return out
             if name in f.mod.imports:
